@@ -146,6 +146,15 @@ Inductive outcome (c : cfg) (t : table) (kn : list Z) (b : bst) (reqs : list Z)
     In p reqs -> find_handler t p = Some h ->
     outcome c t kn b reqs b (mkO 2 (-1) (-1) (-1) (-1) 0 (-1) (-1) [(h_reg h, p)]).
 
+Lemma obt_obtained : forall p reg, obtained (obtained_res p reg) = true.
+Proof. reflexivity. Qed.
+Lemma obt_fail : forall code, obtained (fail_res code) = false.
+Proof. intros. unfold obtained, fail_res. cbn [o_res o_use]. apply andb_false_r. Qed.
+Lemma obt_use : forall p, obtained (use_failed p) = false.
+Proof. reflexivity. Qed.
+Lemma obt_refused : forall l, obtained (mkO 2 (-1) (-1) (-1) (-1) 0 (-1) (-1) l) = false.
+Proof. reflexivity. Qed.
+
 Section Generic.
   Variable ms_select : (Z -> bool) -> list Z -> option Z.
   Variable ms_lazy : (Z -> bool) -> Z -> bool.
@@ -162,11 +171,12 @@ Section Generic.
     split; [|exact S]. subst l. apply in_or_app. right. left. reflexivity.
   Qed.
 
-  Lemma pref_found : forall t kn extra reqs p,
-    find (fun r => memz r kn || memz r (filter (supports t) extra)) reqs = Some p ->
+  Lemma pref_found : forall c t kn extra reqs p,
+    preferred c t kn extra reqs = Some p ->
     In p reqs /\ (memz p kn = true \/ supports t p = true).
   Proof.
-    intros t kn extra reqs p H. apply find_some in H. destruct H as [Hin H]. split; [exact Hin|].
+    intros c t kn extra reqs p H. unfold preferred in H. destruct (c_blankD c); [discriminate|].
+    apply find_some in H. destruct H as [Hin H]. split; [exact Hin|].
     apply orb_true_iff in H. destruct H as [H|H]; [left; exact H|].
     right. apply memz_filter in H. tauto.
   Qed.
@@ -178,7 +188,7 @@ Section Generic.
     intros c t kn b reqs extra race allow b' r H. unfold open1 in H.
     destruct (c_limited c && negb allow).
     { inversion H; subst. apply OutFail. discriminate. }
-    destruct (find _ reqs) as [p|] eqn:Epref.
+    destruct (preferred c t kn extra reqs) as [p|] eqn:Epref.
     - (* optimistic *)
       apply pref_found in Epref. destruct Epref as [Hin Hk].
       destruct (scope_try (limD c) (b_out b) p) as [out'|] eqn:ED.
@@ -215,6 +225,43 @@ Section Generic.
           -- inversion H; subst. apply OutUseFailed;
                [exact Hin | repeat split | right; reflexivity | right; split; assumption].
           -- inversion H; subst. apply OutFail. discriminate.
+  Qed.
+  (* why an open did not produce a working stream *)
+  Lemma open1_live : forall c t kn b reqs extra race allow b' r,
+    open1 ms_select ms_lazy c t kn b reqs extra race allow = (b', r) -> obtained r = false ->
+    (exists p, In p reqs /\ memz p kn = true /\ supports t p = false) \/
+    (exists p, In p reqs /\ (scope_try (limD c) (b_out b) p = None \/
+                             scope_try (limL c) (b_in b) p = None)) \/
+    (c_limited c = true /\ allow = false) \/
+    (forall q, In q reqs -> supports t q = false).
+  Proof.
+    intros c t kn b reqs extra race allow b' r H Hob. unfold open1 in H.
+    destruct (c_limited c && negb allow) eqn:El.
+    { right. right. left. apply andb_true_iff in El. destruct El as [E1 E2].
+      apply negb_true_iff in E2. tauto. }
+    destruct (preferred c t kn extra reqs) as [p|] eqn:Epref.
+    - apply pref_found in Epref. destruct Epref as [Hin Hk].
+      destruct (scope_try (limD c) (b_out b) p) as [out'|] eqn:ED.
+      2:{ right. left. exists p. tauto. }
+      rewrite ms_lazy_spec in H. destruct (supports t p) eqn:Esup.
+      + destruct (supports_true_some t p Esup) as [h Eh]. rewrite Eh in H.
+        destruct (scope_try (limL c) (b_in b) p) as [in'|] eqn:EL.
+        * inversion H; subst. rewrite obt_obtained in Hob. discriminate.
+        * right. left. exists p. tauto.
+      + left. exists p. destruct Hk as [Hk|Hk]; [tauto|discriminate Hk].
+    - destruct reqs as [|r0 reqs'] eqn:Ereqs.
+      { right. right. right. intros q []. }
+      rewrite <- Ereqs in *. clear Ereqs.
+      destruct (ms_select (supports t) reqs) as [p|] eqn:Esel.
+      2:{ right. right. right. exact (ms_select_none _ _ Esel). }
+      destruct (ms_select_in _ _ _ Esel) as [Hin Hsup].
+      destruct (find_handler t p) as [h|] eqn:Eh.
+      2:{ exfalso. destruct (supports_true_some t p Hsup) as [h Eh']. congruence. }
+      destruct (scope_try (limL c) (b_in b) p) as [in'|] eqn:EL.
+      + destruct (scope_try (limD c) (b_out b) p) as [out'|] eqn:ED.
+        * inversion H; subst. rewrite obt_obtained in Hob. discriminate.
+        * right. left. exists p. tauto.
+      + right. left. exists p. tauto.
   Qed.
 End Generic.
 
@@ -273,7 +320,7 @@ Definition in_range (U : Z) (l : list Z) : Prop := forall p, In p l -> 0 <= p < 
 (* scope columns are judged only where real resource managers run, and only
    there can a scope refuse *)
 Definition wf_cfg (has_scope : bool) (c : cfg) : Prop :=
-  (has_scope = true \/ forall p, limL c p < 0) /\ (has_scope = true -> c_rcmgr c = true).
+  (has_scope = true \/ forall p, limL c p < 0 /\ limD c p < 0) /\ (has_scope = true -> c_rcmgr c = true).
 
 Lemma outcome_open_ok : forall U has_scope c t kn knm b reqs b' r fo fin,
   outcome c t kn b reqs b' r ->
@@ -314,7 +361,7 @@ Proof.
         assert (E1 : (0 <=? limL c p) = true) by (apply Z.leb_le; lia).
         assert (E2 : (limL c p <=? fin p) = true) by (apply Z.leb_le; specialize (Hmono p); lia).
         rewrite E1, E2. reflexivity.
-      * specialize (Hneg p). lia.
+      * destruct (Hneg p). lia.
   - (* dialer refused after the listener dispatched *)
     unfold obtained. cbn [o_res o_dp o_use o_h o_lp o_ninv o_hreg o_hlp]. cbn.
     destruct (common t reqs); reflexivity.
@@ -399,15 +446,6 @@ Proof.
     + apply IHoutcomes; auto. intros q0 Hq0. apply Hr. right. exact Hq0.
 Qed.
 
-Lemma obt_obtained : forall p reg, obtained (obtained_res p reg) = true.
-Proof. reflexivity. Qed.
-Lemma obt_fail : forall code, obtained (fail_res code) = false.
-Proof. intros. unfold obtained, fail_res. cbn [o_res o_use]. apply andb_false_r. Qed.
-Lemma obt_use : forall p, obtained (use_failed p) = false.
-Proof. reflexivity. Qed.
-Lemma obt_refused : forall l, obtained (mkO 2 (-1) (-1) (-1) (-1) 0 (-1) (-1) l) = false.
-Proof. reflexivity. Qed.
-
 (* the streams both ends hold after a batch: the obtained ones, on the next slots in order *)
 Lemma outcomes_held : forall c t kn b qs b' rs, outcomes c t kn b qs b' rs ->
   b_held b' = b_held b ++ slots_of (b_nslot b) rs /\
@@ -461,3 +499,83 @@ Proof.
     + rewrite Eo, Ei, obt_use. cbn [andb]. lia.
     + rewrite obt_refused. cbn [andb]. lia.
 Qed.
+
+(* ---- liveness clause -------------------------------------------------------------- *)
+Lemma common_supports : forall t reqs, common t reqs = true ->
+  exists q, In q reqs /\ supports t q = true.
+Proof.
+  intros t reqs H. unfold common in H. apply existsb_exists in H. destruct H as [q [Hin Hm]].
+  exists q. split; [exact Hin|]. rewrite supports_matched. exact Hm.
+Qed.
+
+Lemma outcomes_mono_out : forall c t kn b qs b' rs, outcomes c t kn b qs b' rs ->
+  forall p, b_out b p <= b_out b' p.
+Proof.
+  intros c t kn b qs b' rs H. induction H; intros p; [lia|].
+  pose proof (proj2 (outcome_mono _ _ _ _ _ _ _ H) p). specialize (IHoutcomes p). lia.
+Qed.
+
+Lemma live_ok_holds : forall U hs c t kn knm b (q : oreq) r fo fin,
+  (obtained r = false ->
+   (exists p, In p (q_reqs q) /\ memz p kn = true /\ supports t p = false) \/
+   (exists p, In p (q_reqs q) /\ (scope_try (limD c) (b_out b) p = None \/
+                                  scope_try (limL c) (b_in b) p = None)) \/
+   (c_limited c = true /\ q_allow q = false) \/
+   (forall x, In x (q_reqs q) -> supports t x = false)) ->
+  in_range U (q_reqs q) -> wf_cfg hs c ->
+  (forall p, 0 <= p < U -> memz p knm = memz p kn) ->
+  (forall p, b_out b p <= fo p) -> (forall p, b_in b p <= fin p) ->
+  live_ok U hs c t knm (scope_vec U fo fin) q r = true.
+Proof.
+  intros U hs c t kn knm b q r fo fin Hwhy Hrange Hwf Hkn Hmo Hmi. unfold live_ok.
+  destruct (common t (q_reqs q)) eqn:Hc; [|reflexivity].
+  destruct (obtained r) eqn:Hob; [reflexivity|]. cbn [negb andb implb].
+  destruct (Hwhy eq_refl) as [[p [Hin [Hk Hs]]] | [[p [Hin Hfull]] | [[Hl Ha] | Hnone]]].
+  - apply orb_true_iff. left. apply orb_true_iff. left. apply existsb_exists. exists p.
+    split; [exact Hin|]. rewrite (Hkn p (Hrange p Hin)), Hk, <- supports_matched, Hs. reflexivity.
+  - apply orb_true_iff. left. apply orb_true_iff. right.
+    pose proof (Hrange p Hin) as Hp. destruct Hwf as [[Hhs | Hneg] _].
+    + rewrite Hhs. cbn [andb]. unfold scope_full. apply existsb_exists. exists p. split; [exact Hin|].
+      rewrite vec_at_in, vec_at_out by exact Hp. apply orb_true_iff.
+      destruct Hfull as [Hf|Hf]; apply scope_try_none in Hf; [right|left];
+        apply andb_true_iff; split; apply Z.leb_le; [lia | specialize (Hmo p); lia | lia | specialize (Hmi p); lia].
+    + exfalso. destruct (Hneg p). destruct Hfull as [Hf|Hf]; apply scope_try_none in Hf; lia.
+  - apply orb_true_iff. right. rewrite Hl, Ha. reflexivity.
+  - exfalso. destruct (common_supports _ _ Hc) as [x [Hx Hsx]]. rewrite (Hnone x Hx) in Hsx. discriminate.
+Qed.
+
+Section GenericLive.
+  Variable ms_select : (Z -> bool) -> list Z -> option Z.
+  Variable ms_lazy : (Z -> bool) -> Z -> bool.
+  Hypothesis ms_select_some : forall sup l p, ms_select sup l = Some p ->
+    exists l1 l2, l = l1 ++ p :: l2 /\ sup p = true /\ (forall q, In q l1 -> sup q = false).
+  Hypothesis ms_select_none : forall sup l, ms_select sup l = None ->
+    forall q, In q l -> sup q = false.
+  Hypothesis ms_lazy_spec : forall sup p, ms_lazy sup p = sup p.
+
+  Lemma run_batch_live : forall U hs opens c t kn knm fo fin b b' rs,
+    run_batch ms_select ms_lazy c t kn b opens = (b', rs) ->
+    (forall q, In q (reqs_of opens) -> in_range U q) -> wf_cfg hs c ->
+    (forall p, 0 <= p < U -> memz p knm = memz p kn) ->
+    (forall p, b_out b' p <= fo p) -> (forall p, b_in b' p <= fin p) ->
+    forallb (fun x => live_ok U hs c t knm (scope_vec U fo fin) (fst x) (snd x)) (combine opens rs) = true.
+  Proof.
+    intros U hs opens. induction opens as [|q opens IH]; intros c t kn knm fo fin b b' rs H Hr Hwf Hkn Hfo Hfi;
+      cbn [run_batch] in H.
+    - inversion H; subst. reflexivity.
+    - destruct (open1 ms_select ms_lazy c t kn b (q_reqs q) (q_extra q) (q_race q) (q_allow q)) as [b1 o] eqn:E1.
+      destruct (run_batch ms_select ms_lazy c t kn b1 opens) as [b2 os] eqn:E2.
+      inversion H; subst. cbn [combine forallb fst snd].
+      pose proof (open1_outcome ms_select ms_lazy ms_select_some ms_lazy_spec _ _ _ _ _ _ _ _ _ _ E1) as Ho1.
+      pose proof (run_batch_outcomes ms_select ms_lazy ms_select_some ms_lazy_spec _ _ _ _ _ _ _ E2) as Ho2.
+      apply andb_true_iff. split.
+      + eapply live_ok_holds with (b := b); eauto.
+        * intros Hob. eapply open1_live; eauto.
+        * apply Hr. left. reflexivity.
+        * intros p. pose proof (proj2 (outcome_mono _ _ _ _ _ _ _ Ho1) p).
+          pose proof (outcomes_mono_out _ _ _ _ _ _ _ Ho2 p). specialize (Hfo p). lia.
+        * intros p. pose proof (proj1 (outcome_mono _ _ _ _ _ _ _ Ho1) p).
+          pose proof (outcomes_mono _ _ _ _ _ _ _ Ho2 p). specialize (Hfi p). lia.
+      + eapply IH; eauto. intros q0 Hq0. apply Hr. right. exact Hq0.
+  Qed.
+End GenericLive.
